@@ -600,10 +600,10 @@ def gen_skipconc(rng, tier, sess):
                 nm = rng.choice(sorted(iters[t]))
                 pend[t] = ('it_close', nm)
                 handle(t, sess.send('start %d it_close %s' % (t, nm)))
-            elif iters[t] and q < 0.76:
+            elif iters[t] and q < 0.84:
                 nm = rng.choice(sorted(iters[t]))
                 pend[t] = ('it_interval', nm)
-                handle(t, sess.send('start %d it_interval %s %d' % (t, nm, rng.choice((1, 1, 2, 3)))))
+                handle(t, sess.send('start %d it_interval %s %d' % (t, nm, rng.choice((1, 1, 1, 2, 3)))))
             elif len(iters[t]) < 2:
                 nit += 1
                 nm = 'i%d' % nit
